@@ -15,11 +15,14 @@ static void c14_gen(Tape &t, Case &c) {
   c.add_model(g.m);
   c.ops.push_back(Op("route").I(t.below(R_NROUTES)));
   Op b("basis");
-  int kind = (int)t.below(3);              // 0 from an exact solve, 1/2 arbitrary type-correct
+  int kind = (int)t.below(4);              // 0 from an exact solve, 1/2 arbitrary type-correct, 3 derived from the pre-solve's basis
   b.I(kind);
-  if (kind) { std::string cs, rs; gen_basis(t, g.m, cs, rs); b.S(cs).S(rs); }
+  { std::string cs, rs; gen_basis(t, g.m, cs, rs); b.S(cs).S(rs); }       // (kind 0 ignores it; kind 3 falls back to it)
+  b.I(t.below(64)).I(t.below(64));
   c.ops.push_back(b);
-  c.ops.push_back(Op("how").I(t.below(4)).I(t.below(5)).I(t.below(3)));   // write mode, follow-up, solved before loading (no/primal/dual)
+  Op how("how");
+  how.I(t.below(4)).I(t.below(5)).I(kind == 3 ? 1 + (int)t.below(2) : (int)t.below(3));   // write mode, follow-up, solved before loading (no/primal/dual)
+  c.ops.push_back(how);
 }
 
 static bool same_basis_upto_free(const Model &m, const std::string &c1, const std::string &r1, const std::string &c2, const std::string &r2, std::string *why) {
@@ -72,6 +75,27 @@ static void c14_run(const Case &c, Result &r) {
       mpq_QSset_param(p, QS_PARAM_SIMPLEX_MAX_ITERATIONS, 500);
       if (pre == 1) mpq_QSopt_primal(p, &st); else mpq_QSopt_dual(p, &st);
       r.label(std::string("solved-before-load:") + (st == QS_LP_OPTIMAL ? "OPTIMAL" : "other"));
+      if (bo.i[0] == 3 && bo.i.size() > 2) {
+        // a basis that differs from the one the solver just left only in its ROW statuses: a basic and a
+        // non-basic row change places, or a ranged row moves to its other side
+        std::string c0((size_t)m.n(), '?'), r0((size_t)m.m(), '?');
+        if (mpq_QSget_basis_array(p, &c0[0], &r0[0]) == 0) {
+          std::vector<int> bas, nb, rg;
+          for (int i = 0; i < m.m(); i++) { (r0[i] == '1' ? bas : nb).push_back(i); if (r0[i] != '1' && m.rows[i].sense == 'R') rg.push_back(i); }
+          bool changed = false;
+          if (!bas.empty() && !nb.empty() && (rg.empty() || bo.i[1] % 2 == 0)) {
+            int i1 = bas[bo.i[1] % (long)bas.size()], i2 = nb[bo.i[2] % (long)nb.size()];
+            std::swap(r0[i1], r0[i2]);
+            if (r0[i1] == '2' && m.rows[i1].sense != 'R') r0[i1] = '0';
+            changed = true;
+          } else if (!rg.empty()) {
+            int i1 = rg[bo.i[2] % (long)rg.size()];
+            r0[i1] = r0[i1] == '0' ? '2' : '0';
+            changed = true;
+          }
+          if (changed) { cs = c0; rs = r0; r.label("basis:derived-row-statuses-only"); }
+        }
+      }
     }
   }
   // a valid basis uses FREE only for columns without finite bounds; a basis that the solver hands back
@@ -146,8 +170,28 @@ static void c14_run(const Case &c, Result &r) {
         mpq_QSchange_rhscoef(p, 0, nr.get_mpq_t());
         mpq_QSchange_rhscoef(twin, 0, nr.get_mpq_t());
       }
-      int r1 = follow == 3 ? mpq_QSopt_primal(p, &st1) : mpq_QSopt_dual(p, &st1);
-      int r2 = follow == 3 ? mpq_QSopt_primal(twin, &st2) : mpq_QSopt_dual(twin, &st2);
+      bool use_primal = follow == 3 && ((m.n() * 3 + m.m()) % 2 == 0);   // read-and-load is followed by either solver
+      int r1 = use_primal ? mpq_QSopt_primal(p, &st1) : mpq_QSopt_dual(p, &st1);
+      int r2 = use_primal ? mpq_QSopt_primal(twin, &st2) : mpq_QSopt_dual(twin, &st2);
+      if (r.verdict == PASS && l1 == 0 && r1 == 0 && st1 == QS_LP_OPTIMAL) {
+        // what the object now reports as its basis must go with what it reports as its solution
+        std::string c9((size_t)m.n(), '?'), r9((size_t)m.m(), '?');
+        Model mnow = m;
+        if (follow == 4 && m.m() > 0) mnow.rows[0].rhs = m.rows[0].rhs + 1;
+        QArr x9(m.n() + 1);
+        if (mpq_QSget_basis_array(p, &c9[0], &r9[0]) == 0 && mpq_QSget_x_array(p, x9.v) == 0) {
+          BasisEval e9;
+          basis_eval(mnow, c9, r9, e9);
+          if (!e9.singular) {
+            bool same = true;
+            for (int j = 0; j < m.n(); j++) if (e9.x[j] != x9.get(j)) same = false;
+            if (!same) r.fail("followup-basis-vs-solution", "after loading the basis from the file and solving, the reported basis " + c9 + "/" + r9 + " is not the basis of the reported x");
+            else if (!e9.pfeas || !e9.dfeas) r.label("followup:reported-basis-not-optimal");
+            else r.label("followup:basis-and-solution-consistent");
+          }
+        }
+      }
+      if (r.verdict != PASS) { mpq_QSfree_prob(twin); break; }
       if (l1 != l2 || r1 != r2 || st1 != st2) r.fail("followup-differs:status", strprintf("after the file round trip: load %d solve %d status %d; without it: load %d solve %d status %d", l1, r1, st1, l2, r2, st2));
       else if (st1 == QS_LP_OPTIMAL) {
         mpq_QSget_objval(p, qp(v1));
